@@ -418,6 +418,11 @@ def c01_trace(r, tier: str) -> List[dict]:
                     for nm, tok in op["vals"]:
                         tok = r.choice(["n1", "n2", "n3", "n4", "n5"])
                         op["texts"][nm] = "%.7f" % DV.NUM[tok] if r.random() < 0.6 else ("%d:%02d:%06.3f" % (int(abs(DV.NUM[tok])), int(abs(DV.NUM[tok]) * 60) % 60, (abs(DV.NUM[tok]) * 3600) % 60) if DV.NUM[tok] >= 0 else "%.7f" % DV.NUM[tok])
+                        if r.random() < 0.3:
+                            # an application may also assign a number (not text): it must arrive with all its digits
+                            op["texts"][nm] = r.choice([1.2345678, -0.33333333, 51.47783219, 7, 0.000125])
+                            vals.append([nm, fmt9(op["texts"][nm])])
+                            continue
                         vals.append([nm, fmt9(DV.parse_number(op["texts"][nm]))])
                     op["vals"] = vals
             elif x < 0.97 and len(dep["devorder"]) > 1:
